@@ -352,6 +352,20 @@ def translate():
             WHERE["f_default_comp_fresh"] = (WHERE.get("f_default_comp_fresh", "") + " %s:%d" % (rel, s.lineno)).strip()
     if not ok:
         fresh_comp = False
+    # every load must reach set_coeffs (which clears the old pulses): no `return` before that call
+    idx = None
+    for i, st_ in enumerate(_stmts(fn)):
+        if isinstance(st_, ast.Expr) and isinstance(st_.value, ast.Call) and u(st_.value.func) in ("self.set_coeffs", "self.set_all_coeffs"):
+            idx = i
+            break
+    if idx is None:
+        raise Broken("translator:" + rel + ":load_circuit", "no top-level self.set_coeffs(...) call")
+    early = [r for st_ in _stmts(fn)[:idx] for r in ast.walk(st_) if isinstance(r, ast.Return)]
+    if early:
+        F["f_set_coeffs_clears"] = False
+        WHERE["f_set_coeffs_clears"] = "%s:%d (return before set_coeffs, line %d)" % (rel, early[0].lineno, _stmts(fn)[idx].lineno)
+    else:
+        WHERE["f_set_coeffs_clears"] += " and %s:%d (every load reaches set_coeffs)" % (rel, _stmts(fn)[idx].lineno)
     F["f_load_sets_gp"] = sets_gp
     F["f_default_comp_fresh"] = fresh_comp
 
